@@ -237,7 +237,7 @@ def r18_7(ctx):
     ok = False
     for bb, t in b.iter_calls():
         c = callee_of(t) or ""
-        if c.endswith("IntoIterator>::into_iter"):
+        if c.endswith("::into_iter"):
             a = ex.call_args(bb)[0]
             if any(x[0] == "field" and x[2] == "pv_moves" for x in subexprs(a)):
                 ok = True
